@@ -8,7 +8,15 @@ wt = "%s/%s" % (BASE, cid)
 out = "%s/%s-out" % (BASE, cid)
 clean = "git checkout -q -- . && git clean -qfd"
 subprocess.run(clean, shell=True, cwd=wt)
+# the seed was written against the head of /repo at that time; the checks describe the CURRENT head (later fix: commits)
+head = subprocess.run("git -C /repo rev-parse HEAD", shell=True, stdout=subprocess.PIPE, text=True).stdout.strip()
+subprocess.run("git checkout -q --detach %s" % head, shell=True, cwd=wt)
 a = subprocess.run("git apply %s/patch%s.diff" % (out, n), shell=True, cwd=wt)
+if a.returncode != 0:
+    a = subprocess.run("patch -p1 -s --no-backup-if-mismatch < %s/patch%s.diff" % (out, n), shell=True, cwd=wt)
+    if a.returncode != 0:
+        print(json.dumps({"seed": "%s/patch%s" % (cid, n), "checks": {p: {"exit": 2, "violations": [], "failed": [], "undecided": ["UNDECIDED seed patch does not apply to the current head of /repo"]} for p in props}}))
+        sys.exit(0)
 res = {}
 for p in props:
     env = dict(os.environ, VERIF_REPO=wt)
